@@ -30,6 +30,12 @@ type jcase struct {
 	BC     [3]int32    `json:"bc,omitempty"`
 	Pts    [][3]int    `json:"pts,omitempty"`
 	Order  string      `json:"order,omitempty"`
+	Blocks []jblock    `json:"blocks,omitempty"` // multi-block streams (rlem, binm)
+}
+
+type jblock struct {
+	Paints []blk.Paint `json:"paints"`
+	BC     [3]int32    `json:"bc"`
 }
 
 func hx(b []byte) string { return `(hx "` + hex.EncodeToString(b) + `"%string)` }
@@ -101,13 +107,17 @@ func goUnmarshal(data []byte) (cls string, b *labels.Block) {
 
 // goRLEs runs WriteRLEs on one positioned block; a panic inside the writer goroutine is caught there.
 func goRLEs(b *labels.Block, bc [3]int32, lbls []uint64) (cls string, runs [][4]int64) {
+	return goRLEsM([]*labels.Block{b}, [][3]int32{bc}, lbls)
+}
+
+// goRLEsM streams the positioned blocks, in order, to one WriteRLEs.
+func goRLEsM(bs []*labels.Block, bcs [][3]int32, lbls []uint64) (cls string, runs [][4]int64) {
 	var buf bytes.Buffer
 	op := labels.NewOutputOp(&buf)
 	set := labels.Set{}
 	for _, l := range lbls {
 		set[l] = struct{}{}
 	}
-	pb := labels.PositionedBlock{Block: *b, BCoord: dvid.ChunkPoint3d{bc[0], bc[1], bc[2]}.ToIZYXString()}
 	done := make(chan string, 1)
 	go func() {
 		defer func() {
@@ -118,7 +128,10 @@ func goRLEs(b *labels.Block, bc [3]int32, lbls []uint64) (cls string, runs [][4]
 		labels.WriteRLEs(set, op, dvid.Bounds{})
 		done <- "returned"
 	}()
-	op.Process(&pb)
+	for k, b := range bs {
+		pb := labels.PositionedBlock{Block: *b, BCoord: dvid.ChunkPoint3d{bcs[k][0], bcs[k][1], bcs[k][2]}.ToIZYXString()}
+		op.Process(&pb)
+	}
 	errc := make(chan error, 1)
 	go func() { errc <- op.Finish() }()
 	select {
@@ -161,21 +174,34 @@ func goRLEs(b *labels.Block, bc [3]int32, lbls []uint64) (cls string, runs [][4]
 }
 
 func coqRuns(runs [][4]int64) string {
-	ss := make([]string, len(runs))
-	for i, r := range runs {
-		ss[i] = fmt.Sprintf("(%s%%Z,%s%%Z,%s%%Z,%d)", lib.CoqZ(r[0]), lib.CoqZ(r[1]), lib.CoqZ(r[2]), r[3])
+	// flat list of integers (x y z length per run), regrouped by Model.BlockRun.unflat: half the text
+	ss := make([]string, 0, 4*len(runs))
+	for _, r := range runs {
+		ss = append(ss, lib.CoqZ(r[0]), lib.CoqZ(r[1]), lib.CoqZ(r[2]), lib.CoqZ(r[3]))
 	}
-	return "[" + strings.Join(ss, ";") + "]"
+	return "(unflat [" + strings.Join(ss, ";") + "]%Z)"
 }
 
 func goBinary(b *labels.Block, bc [3]int32, main uint64, lbls []uint64) (cls string, out []byte, mcls string, mask uint64) {
+	cls, out, mcls, ms := goBinaryM([]*labels.Block{b}, [][3]int32{bc}, main, lbls)
+	if mcls == "ok" {
+		if len(ms) != 1 {
+			return cls, out, "err", 0
+		}
+		mask = uint64(ms[0][3])
+	}
+	return cls, out, mcls, mask
+}
+
+// goBinaryM streams the positioned blocks to one WriteBinaryBlocks and reads the result back:
+// per received block its voxel offset and the digest of its mask.
+func goBinaryM(bs []*labels.Block, bcs [][3]int32, main uint64, lbls []uint64) (cls string, out []byte, mcls string, masks [][4]int64) {
 	var buf bytes.Buffer
 	op := labels.NewOutputOp(&buf)
 	set := labels.Set{}
 	for _, l := range lbls {
 		set[l] = struct{}{}
 	}
-	pb := labels.PositionedBlock{Block: *b, BCoord: dvid.ChunkPoint3d{bc[0], bc[1], bc[2]}.ToIZYXString()}
 	done := make(chan string, 1)
 	go func() {
 		defer func() {
@@ -186,42 +212,48 @@ func goBinary(b *labels.Block, bc [3]int32, main uint64, lbls []uint64) (cls str
 		labels.WriteBinaryBlocks(main, set, op, dvid.Bounds{})
 		done <- "returned"
 	}()
-	op.Process(&pb)
+	for k, b := range bs {
+		pb := labels.PositionedBlock{Block: *b, BCoord: dvid.ChunkPoint3d{bcs[k][0], bcs[k][1], bcs[k][2]}.ToIZYXString()}
+		op.Process(&pb)
+	}
 	errc := make(chan error, 1)
 	go func() { errc <- op.Finish() }()
 	select {
 	case s := <-done:
 		if s == "panic" {
-			return "panic", nil, "err", 0
+			return "panic", nil, "err", nil
 		}
 		if err := <-errc; err != nil {
-			return "err", nil, "err", 0
+			return "err", nil, "err", nil
 		}
 	case err := <-errc:
 		if err != nil {
-			return "err", nil, "err", 0
+			return "err", nil, "err", nil
 		}
 	case <-time.After(10 * time.Second):
-		return "panic", nil, "err", 0
+		return "panic", nil, "err", nil
 	}
 	out = append([]byte{}, buf.Bytes()...)
 	cls = "ok"
 	if len(out) == 0 {
-		return cls, out, "err", 0
+		return cls, out, "err", nil
 	}
 	p, _ := lib.Recover(func() {
 		bbs, err := labels.ReceiveBinaryBlocks(bytes.NewReader(out))
-		if err != nil || len(bbs) != 1 {
+		if err != nil {
 			mcls = "err"
 			return
 		}
-		vals := make([]uint64, len(bbs[0].Voxels))
-		for i, v := range bbs[0].Voxels {
-			if v {
-				vals[i] = 1
+		for _, bb := range bbs {
+			vals := make([]uint64, len(bb.Voxels))
+			for i, v := range bb.Voxels {
+				if v {
+					vals[i] = 1
+				}
 			}
+			masks = append(masks, [4]int64{int64(bb.Offset[0]), int64(bb.Offset[1]), int64(bb.Offset[2]), int64(blk.Digest(vals))})
 		}
-		mcls, mask = "ok", blk.Digest(vals)
+		mcls = "ok"
 	})
 	if p {
 		mcls = "panic"
@@ -358,6 +390,55 @@ func main() {
 		}
 	}
 
+	addMulti := func(c jcase) {
+		var bs []*labels.Block
+		var bcs [][3]int32
+		var gob, blocks []string
+		ok := true
+		var dsum uint64
+		for _, jb := range c.Blocks {
+			arr := blk.Expand(8*c.G[0], 8*c.G[1], 8*c.G[2], jb.Paints)
+			dsum = dsum*31 + blk.Digest(arr)
+			cls, b := goMakeBlock(blk.ToBytes(arr), c.G)
+			var data []byte
+			if cls == "ok" {
+				d, _ := b.MarshalBinary()
+				data = append([]byte{}, d...)
+				bs = append(bs, b)
+				bcs = append(bcs, jb.BC)
+			} else {
+				ok = false
+			}
+			gob = append(gob, resBytes(cls, data))
+			blocks = append(blocks, fmt.Sprintf("(%s, (%s%%Z,%s%%Z,%s%%Z))", blk.CoqPaints(jb.Paints), lib.CoqZ(int64(jb.BC[0])), lib.CoqZ(int64(jb.BC[1])), lib.CoqZ(int64(jb.BC[2]))))
+		}
+		hdr := fmt.Sprintf("%d %d %d [%s]", c.G[0], c.G[1], c.G[2], strings.Join(blocks, "; "))
+		if c.Kind == "rlem" {
+			rc, runs := "err", [][4]int64(nil)
+			if ok {
+				rc, runs = goRLEsM(bs, bcs, c.Lbls)
+			}
+			term := fmt.Sprintf("(CRleM %s %s [%s] %s)", hdr, lib.CoqNList(c.Lbls), strings.Join(gob, "; "), lib.CoqRes(rc, coqRuns(runs)))
+			run.Count(fmt.Sprintf("rlem:blocks:%d", len(c.Blocks)))
+			run.Count("rlem:result:" + rc)
+			run.Add("rlem", term, c, fmt.Sprintf("rlem/%d/%v/%x", len(c.Blocks), c.Lbls, dsum))
+		} else {
+			oc, out, mc, ms := "err", []byte(nil), "err", [][4]int64(nil)
+			if ok {
+				oc, out, mc, ms = goBinaryM(bs, bcs, c.Main, c.Lbls)
+			}
+			mss := make([]string, len(ms))
+			for i, m := range ms {
+				mss[i] = fmt.Sprintf("(%s%%Z,%s%%Z,%s%%Z,%d)", lib.CoqZ(m[0]), lib.CoqZ(m[1]), lib.CoqZ(m[2]), uint64(m[3]))
+			}
+			term := fmt.Sprintf("(CBinM %s %d %s [%s] %s %s)", hdr, c.Main, lib.CoqNList(c.Lbls), strings.Join(gob, "; "), resBytes(oc, out),
+				lib.CoqRes(mc, "["+strings.Join(mss, ";")+"]"))
+			run.Count(fmt.Sprintf("binm:blocks:%d", len(c.Blocks)))
+			run.Count("binm:result:" + oc)
+			run.Add("binm", term, c, fmt.Sprintf("binm/%d/%v/%x", len(c.Blocks), c.Lbls, dsum))
+		}
+	}
+
 	addDec := func(c jcase) {
 		arr := blk.Expand(8*c.G[0], 8*c.G[1], 8*c.G[2], c.Paints)
 		tbl := blk.TableOrder(arr, c.Order)
@@ -393,6 +474,8 @@ func main() {
 			addSub(c)
 		case "rle", "bin":
 			addView(c)
+		case "rlem", "binm":
+			addMulti(c)
 		case "dec":
 			addDec(c)
 		}
@@ -425,8 +508,8 @@ func main() {
 	{
 		odd := []blk.Paint{blk.Hash([6]int{0, 0, 0, 24, 24, 24}, 4, uint64(rng.Intn(1<<16)), []uint64{1, 2, 3, ^uint64(0)}), blk.Cyc([6]int{8, 8, 8, 16, 16, 16}, 9, 3, uint64(2+rng.Intn(60)))}
 		addEnc(jcase{Kind: "enc", G: g3, Paints: odd, Pts: samplePts(g3, 6)})
-		addView(jcase{Kind: "rle", G: g3, Paints: odd, Lbls: []uint64{1, 3}, BC: [3]int32{-1, 0, 1}})
 		if o.Thorough() {
+			addView(jcase{Kind: "rle", G: g3, Paints: odd, Lbls: []uint64{1, 3}, BC: [3]int32{-1, 0, 1}})
 			addDec(jcase{Kind: "dec", G: g3, Paints: odd, Pts: samplePts(g3, 3), Order: "desc"})
 			addView(jcase{Kind: "bin", G: g3, Paints: odd, Lbls: []uint64{2}, Main: 2, BC: [3]int32{0, -1, 0}})
 			g5 := [3]int{3, 3, 5}
@@ -537,7 +620,11 @@ func main() {
 			g = sizes[rng.Intn(len(sizes))]
 		}
 		pal := []uint64{1, 2, 3, 4, 0}
-		ps := []blk.Paint{blk.Hash(full(g), uint64(rng.Pick(1, 2, 4)), uint64(rng.Intn(1<<16)), pal[:2+rng.Intn(4)])}
+		cs := uint64(rng.Pick(1, 2, 4))
+		if g != g2 && !o.Thorough() {
+			cs = uint64(rng.Pick(2, 4)) // fewer runs to print for the larger blocks
+		}
+		ps := []blk.Paint{blk.Hash(full(g), cs, uint64(rng.Intn(1<<16)), pal[:2+rng.Intn(4)])}
 		if rng.Bool() {
 			ps = append(ps, blk.Box([6]int{0, 0, 0, 8, 8, 8}, uint64(rng.Pick(1, 2, 9)))) // a one-label sub-block
 		}
@@ -551,6 +638,103 @@ func main() {
 		bc := bcs[i%len(bcs)]
 		addView(jcase{Kind: "rle", G: g, Paints: ps, Lbls: lbls, BC: bc})
 		addView(jcase{Kind: "bin", G: g, Paints: ps, Lbls: lbls, Main: lbls[0], BC: bcs[(i+1)%len(bcs)]})
+	}
+	// sub-block classes with respect to a label set of 1-4 labels {10, 13, 16, 19}: solid in the set,
+	// several set labels and nothing else, mixed with background, none of the set — in random order
+	setOf := func(k int) []uint64 { return []uint64{10, 13, 16, 19}[:k] }
+	classPaints := func(g [3]int, k int, none bool) []blk.Paint {
+		ps := []blk.Paint{blk.Fill(uint64(rng.Pick(0, 1, 2)))}
+		if none {
+			if rng.Bool() {
+				ps = append(ps, blk.Hash(full(g), 2, uint64(rng.Intn(1<<16)), []uint64{0, 1, 2}))
+			}
+			return ps
+		}
+		// every class about equally often, in a random order over the sub-blocks
+		nsb := g[0] * g[1] * g[2]
+		classes := make([]int, nsb)
+		for i := range classes {
+			classes[i] = i % 4
+		}
+		for i := nsb - 1; i > 0; i-- {
+			j := rng.Intn(i + 1)
+			classes[i], classes[j] = classes[j], classes[i]
+		}
+		sb := 0
+		for sz := 0; sz < g[2]; sz++ {
+			for sy := 0; sy < g[1]; sy++ {
+				for sx := 0; sx < g[0]; sx, sb = sx+1, sb+1 {
+					box := [6]int{8 * sx, 8 * sy, 8 * sz, 8*sx + 8, 8*sy + 8, 8*sz + 8}
+					switch classes[sb] {
+					case 0:
+						ps = append(ps, blk.Box(box, setOf(k)[rng.Intn(k)]))
+					case 1:
+						if k >= 2 {
+							ps = append(ps, blk.Cyc(box, 10, 3, uint64(2+rng.Intn(k-1))))
+						} else {
+							ps = append(ps, blk.Box(box, 10))
+						}
+					case 2:
+						pal := append([]uint64{uint64(rng.Pick(0, 1, 2))}, setOf(k)[:1+rng.Intn(k)]...)
+						ps = append(ps, blk.Hash(box, uint64(rng.Pick(1, 2, 4)), uint64(rng.Intn(1<<16)), pal))
+					default: // none of the set: keep the fill or two background labels
+						if rng.Bool() {
+							ps = append(ps, blk.Cyc(box, 1, 1, 2))
+						}
+					}
+				}
+			}
+		}
+		return ps
+	}
+	nClass := 4
+	if o.Thorough() {
+		nClass = 25
+	}
+	for i := 0; i < nClass; i++ {
+		k := 1 + rng.Intn(4)
+		if i%4 != 0 {
+			k = 2 + rng.Intn(3) // label sets of several labels most of the time
+		}
+		ps := classPaints(g2, k, false)
+		addView(jcase{Kind: "bin", G: g2, Paints: ps, Lbls: setOf(k), Main: 10, BC: bcs[rng.Intn(len(bcs))]})
+		if i%4 == 0 {
+			addView(jcase{Kind: "rle", G: g2, Paints: ps, Lbls: setOf(k), BC: bcs[rng.Intn(len(bcs))]})
+		}
+	}
+	// streams of several positioned blocks to one writer: runs of blocks along X, some holding none of
+	// the labels, gaps and row changes; labels reach the block faces through the full sub-blocks
+	stream := func(k int) []jblock {
+		var bl []jblock
+		x, y, z := int32(rng.Intn(3)-2), int32(rng.Intn(3)-1), int32(rng.Intn(2))
+		n := 3 + rng.Intn(2)
+		for j := 0; j < n; j++ {
+			bl = append(bl, jblock{Paints: classPaints(g2, k, j > 0 && j < n-1 && rng.Chance(0.5)), BC: [3]int32{x, y, z}})
+			switch {
+			case rng.Chance(0.75):
+				x++
+			case rng.Bool():
+				x += 2 // a gap: the next block is not the +X neighbour
+			default:
+				x, y = x-1, y+1 // next row
+			}
+		}
+		return bl
+	}
+	// corpus: label reaches the +X face of block 0, block 1 holds none of the labels, label starts at the -X face of block 2
+	addMulti(jcase{Kind: "rlem", G: g2, Lbls: []uint64{10}, Blocks: []jblock{
+		{Paints: []blk.Paint{blk.Fill(1), blk.Box([6]int{5, 2, 3, 16, 9, 4}, 10)}, BC: [3]int32{-1, 0, 0}},
+		{Paints: []blk.Paint{blk.Fill(1), blk.Box([6]int{0, 0, 0, 9, 9, 9}, 2)}, BC: [3]int32{0, 0, 0}},
+		{Paints: []blk.Paint{blk.Fill(2), blk.Box([6]int{0, 2, 3, 7, 9, 4}, 10)}, BC: [3]int32{1, 0, 0}}}})
+	nStream := 1
+	if o.Thorough() {
+		nStream = 15
+	}
+	for i := 0; i < nStream; i++ {
+		k := 1 + rng.Intn(4)
+		addMulti(jcase{Kind: "rlem", G: g2, Lbls: setOf(k), Blocks: stream(k)})
+		k = 1 + rng.Intn(4)
+		addMulti(jcase{Kind: "binm", G: g2, Lbls: setOf(k), Main: 10, Blocks: stream(k)})
 	}
 	// solid blocks and absent labels
 	addView(jcase{Kind: "rle", G: g2, Paints: []blk.Paint{blk.Fill(4)}, Lbls: []uint64{4}, BC: [3]int32{-1, 0, 0}})
